@@ -521,7 +521,8 @@ def run_counting(argv, cwd, stdin, env, timeout):
     """like lib.run_cmd, for output too large to keep: standard output goes through a pipe into a separate counting process
     (a thread of this process would have to take the interpreter lock for every megabyte of 40 GB while the run is busy).
     Returns (rc, first 64 KiB of stdout, stderr, {"lines":, "bytes":, "tail": last 4 KiB})."""
-    e = {"PATH": os.environ.get("PATH", ""), "HOME": os.environ.get("HOME", "/root"), "RUST_BACKTRACE": "0"}
+    e = {"PATH": os.environ.get("PATH", ""), "RUST_BACKTRACE": "0"}
+    e.update(lib.noise_env())
     e.update(env or {})
     with tempfile.TemporaryFile() as ef, tempfile.TemporaryFile() as inf:
         inf.write(stdin)
